@@ -14,10 +14,11 @@ var verifProfIDs = [2]agd.ProfileID{"prof0000", "prof0001"}
 type verifMoves struct {
 	prof    [2]int  // device -> profile index or -1 (deleted)
 	deleted [2]bool // profile marked as deleted by the backend
+	auto    bool    // the profiles have automatic device creation enabled
 }
 
 func (b *verifMoves) profile(p int) *agd.Profile {
-	pr := &agd.Profile{ID: verifProfIDs[p], Deleted: b.deleted[p]}
+	pr := &agd.Profile{ID: verifProfIDs[p], Deleted: b.deleted[p], AutoDevicesEnabled: b.auto}
 	for d, dp := range b.prof {
 		if dp == p {
 			pr.DeviceIDs = append(pr.DeviceIDs, verifDevIDs[d])
@@ -53,7 +54,7 @@ func (b *verifMoves) response(first, second int) (ps []*agd.Profile, ds []*agd.D
 // a lookup by device ID or by dedicated IP returns the device together with the
 // profile that currently contains it, and nothing for a deleted device.
 //
-//verif:harness name=H14b-moves tier=quick bounds="2 profiles, 2 devices each with one dedicated IP; initially both in profile 0; 4 steps from {incremental sync moving one device to profile 0/1/deleted with the changed profiles listed in either order, incremental sync marking a profile deleted or live again, lookup by device ID, lookup by dedicated IP, run pending clean-up goroutines}" reach=done,found,not-found,moved,profile-deleted maxpaths=3000000 switches=0
+//verif:harness name=H14b-moves tier=quick bounds="2 profiles (automatic device creation on or off), 2 devices each with one dedicated IP; initially both in profile 0; 4 steps from {incremental sync moving one device to profile 0/1/deleted with the changed profiles listed in either order, incremental sync marking a profile deleted or live again, lookup by device ID, lookup by dedicated IP, run pending clean-up goroutines}" reach=done,found,not-found,moved,profile-deleted maxpaths=3000000 switches=0
 //verif:assume backend consistency: a device belongs to at most one profile; an incremental response contains every profile whose device list changed, with its current devices; clean-up goroutines run only when the harness lets them
 func VerifC14Moves() { verifC14Moves(4) }
 
@@ -65,7 +66,7 @@ func VerifC14Moves6() { verifC14Moves(5) }
 
 func verifC14Moves(steps int) {
 	db := verifNewDB()
-	b := &verifMoves{}
+	b := &verifMoves{auto: verifChoice(2) == 1}
 	ctx := context.Background()
 	db.setProfiles(ctx, []*agd.Profile{b.profile(0), b.profile(1)}, []*agd.Device{b.device(0), b.device(1)}, true)
 
